@@ -54,6 +54,8 @@ class Ctx(object):
             st['call_sites'] = self._cg.stats()
         if self.prog.relocated:
             st['relocated_functions'] = dict(self.prog.relocated)
+        if self.prog.inlined:
+            st['inlined_new_helpers'] = dict(self.prog.inlined)
         return st
 
 
@@ -207,6 +209,9 @@ def main(argv):
         for rq, aq in sorted(ctx.prog.relocated.items()):
             print('  NOTE function %s is analysed as %s (moved/renamed)'
                   % (aq, rq))
+        for mn, k in sorted(ctx.prog.inlined.items()):
+            print('  NOTE %d call(s) of functions new to %s were expanded '
+                  'in place' % (k, mn))
         for r, fl in sorted(rec.floors.items()):
             print('  %-8s instances %d (floor %d)' % (
                 r, rec.instances.get(r, 0), fl))
